@@ -124,6 +124,10 @@ def report_disagreements(ctx, res, what):
         groups = [(cv[:3] if cv[0] == "err" else ("ok", hashlib.sha1(cv[1].encode()).hexdigest()[:8]), ps[0]) for cv, ps in vals.items()]
         stmts = c["canon"]
         key = f"order-dependent:{c['cat']}"
+        if c["cat"].startswith("local:"):   # local:<kind>[+<kind>]:<input|result>; a script using a join alias is keyed by the join
+            _, kinds, coll = c["cat"].split(":")
+            ks = sorted({"join-alias" if k.startswith("join") else k for k in kinds.split("+")})
+            key = f"order-dependent:local:{'join-alias' if 'join-alias' in ks else '+'.join(ks)}:{coll}"
         names = [x["out"] for x in stmts]
         if len(set(names)) < len(names) and all(cv[0] == "err" and cv[2] in ("1-2-2", "1-3-2-3") for cv in vals):
             key = "duplicate+cycle:error-depends-on-order"   # same defect as found at the DAG level
@@ -288,6 +292,8 @@ def run(ctx):
         cases += T.gen_decorated_cases(ctx.rng, 2000 if thorough else 120)
         graph = T.gen_graph_cases(ctx.rng, ctx.tier)
         cases += graph
+        local = T.gen_localname_cases(ctx.rng, ctx.tier)
+        cases += local
         ctx.log(f"X tie: {len(cases)} generated scripts")
         st = T.dag_tie(ctx, pool, cases, "c12dag")
         ctx.cov["exhaustive"] = True
@@ -346,7 +352,7 @@ def run(ctx):
         small = [c for c in valid if len(c["canon"]) <= 3][:(300 if thorough else 8)]
         mid = [c for c in valid if len(c["canon"]) == 4][:(200 if thorough else 4)]
         big = [c for c in valid if len(c["canon"]) >= 5][:(40 if thorough else 2)]
-        kcases = small + mid + big + [c for c in directed_cases()]
+        kcases = small + mid + big + [c for c in directed_cases()] + local
         for c in kcases:
             if c["cat"] in ("input-is-output",):
                 c["check_ref"] = False
